@@ -27,7 +27,7 @@ def main():
             continue
         obls = res["obligations"]
         rs, texts = solve.discharge(obls, timeout_s=10)
-        pr = solve.probe([pc for _, pc in res["probes"]])
+        vac = solve.probe(res["probes"]) if all(r["status"] == "unsat" for r in rs) else []
         print("== %s: %d paths, %d obligations (+%d trivial), %.1fs" % (tgt, res["paths"], len(obls), res["trivial"], time.time() - t0))
         for o, r in zip(obls, rs):
             ok = r["status"] == "unsat"
@@ -37,10 +37,9 @@ def main():
                 print("  [%s] %-7s %s (%s, %.2fs) @ %s" % ("ok" if ok else "FAIL", o.kind, o.name, r["solver"], r["time"], o.where[:60]))
                 if not ok:
                     print("        ", r["detail"][:600].replace("\n", " "))
-        for (nme, _), r in zip(res["probes"], pr):
-            if r["status"] == "unsat":
-                bad += 1
-                print("  [VACUOUS] %s" % nme)
+        for nme in vac:
+            bad += 1
+            print("  [VACUOUS] %s" % nme)
         if res["ghost_assumes"]:
             print("  ghost assumes:", res["ghost_assumes"])
     from pyvc.stmts import verify_lemma
